@@ -75,6 +75,26 @@ def nat_observers(h):
                 h.check(fired == [1], 'observer:finalizer', (suffix_kind, data), 'fires exactly once', fired)
         finally:
             shutil.rmtree(d, ignore_errors=True)
+    # deterministic: every persisting observer x every downstream suffix that discards or merges resources, on a fixed package of
+    # three resources: what was persisted reads back as the full stream at the observer's position
+    fixed = [[{'id': i, 'v': 'r%d_%d' % (k, i)} for i in range(n)] for k, n in enumerate((3, 4, 2))]
+    for okind in ('dump_to_path', 'dump_to_zip', 'stream', 'checkpoint'):
+        for skind in ('none', 'delete_last', 'delete_first', 'filter_all', 'concat'):
+            d = tempfile.mkdtemp(prefix='c05D_')
+            try:
+                obs = {'dump_to_path': lambda: dump_to_path(os.path.join(d, 'dump')), 'dump_to_zip': lambda: dump_to_zip(os.path.join(d, 'dump.zip')),
+                       'stream': lambda: stream(os.path.join(d, 's', 'out.ndjson')), 'checkpoint': lambda: checkpoint('cp', checkpoint_path=d)}[okind]
+                suffix = {'none': [], 'delete_last': [delete_resource(-1)], 'delete_first': [delete_resource(0)],
+                          'filter_all': [filter_rows(lambda r: False)], 'concat': [concatenate(dict(id=[], v=[]), dict(name='all'))]}[skind]
+                got = h.run(lambda: Flow(*[[dict(r) for r in rs] for rs in fixed], obs(), *suffix).results())
+                back = h.run(lambda: Flow({'dump_to_path': lambda: load(os.path.join(d, 'dump', 'datapackage.json')),
+                                           'dump_to_zip': lambda: load(os.path.join(d, 'dump.zip'), format='datapackage'),
+                                           'stream': lambda: unstream(os.path.join(d, 's', 'out.ndjson')),
+                                           'checkpoint': lambda: checkpoint('cp', checkpoint_path=d)}[okind]()).results()[0])
+                h.check(got[0] == 'ok' and back[0] == 'ok' and back[1] == fixed, 'observer:' + okind, ('fixed package', okind, skind), fixed,
+                        (got[0], back[1] if back[0] == 'ok' else back[:2]))
+            finally:
+                shutil.rmtree(d, ignore_errors=True)
     # deterministic: resources longer than any write batch (1000) through every persisting observer and format; key values that
     # recur from resource to resource (each resource has its OWN primary key) through validate
     from dataflows import set_primary_key
